@@ -428,7 +428,7 @@ func runC06(c *Ctx) *Replay {
 	// that are present. Everything announced is honest, so whatever a decoder allocates for
 	// the count alone shows against the few bytes it was given.
 	if ng := refcodec.EligibleGiants(spans); ng > 0 && c.R.Chance(1, 2) {
-		g := &Giant{Which: c.R.Intn(ng), N: []int{1 << 20, 1<<22 + 1, 1<<24 - 1}[c.R.Intn(3)]}
+		g := &Giant{Which: c.R.Intn(ng), N: []int{1<<22 + 1, 1<<23 + 7, 1<<24 - 1}[c.R.Intn(3)]}
 		if gd, cs, ok := refcodec.GiantPrefix(data, spans, g.Which, g.N); ok {
 			set := map[int]bool{}
 			for k := cs.Start; k <= cs.End+2*cs.Fixed && k < len(gd); k++ {
